@@ -277,6 +277,11 @@ def w_tree(arg):
             os.environ["VERIF_POOL_DELAY_SEED"] = str(delay_seed) if delay_seed else ""
             os.environ["VERIF_POOL_LOG"] = str(log)
             cwd = os.getcwd()
+            for fn_ in vars(m["tracing"]).values():  # what an earlier run of this process learnt about modules of the same names is not part of this run
+                if callable(fn_) and hasattr(fn_, "cache_clear"):
+                    fn_.cache_clear()
+            if arg.get("cwd"):
+                os.chdir(root / arg["cwd"])  # (imports of sibling modules are resolved from the working directory)
             try:
                 if reference:
                     rv = _sequential_reference(main, root, files, preserved, arg["max_passes"], arg["safe"])
@@ -311,7 +316,7 @@ def w_tree(arg):
             res["orders"].append("|".join(got["order"]))
             if got["tree"] != first["tree"] or got["rv"] != first["rv"] or got["exc"] != first["exc"]:
                 diff = [f for f in first["tree"] if got["tree"].get(f) != first["tree"][f]]
-                res["violations"].append({"kind": "parallel_run_differs_from_sequential_run", "input": "\n".join(r for r, _ in arg["files"]),
+                res["violations"].append({"kind": "parallel_run_differs_from_sequential_run" if sched["n_cores"] > 1 else "run_with_another_file_order_differs", "input": "\n".join(r for r, _ in arg["files"]),
                                           "detail": {"schedule": sched, "files_differing": diff[:5], "rv": got["rv"], "rv_n_cores_1": first["rv"], "exc": got["exc"],
                                                      "first_difference": _first_diff(first["tree"], got["tree"], diff)}, "replay": replay})
             elif len(res["samples"]) < 1:
@@ -446,6 +451,14 @@ def main() -> int:
         scheds = [{"n_cores": n, "order_seed": rr.randrange(10**6), "delay_seed": rr.randrange(1, 10**6)} for n in ([2, 3, 5, 8, 16] if thorough else [2, 5, 16])]
         scheds.append({"n_cores": rr.choice([3, 7, 16]), "order_seed": rr.randrange(10**6), "delay_seed": 0})
         trees.append({"files": files, "schedules": scheds, "safe": bool(i % 3 == 1), "max_passes": 1 if i % 2 else 5})
+    # modules that star-import a sibling which is formatted in the same run: the result must not depend on which of the two is formatted first
+    star_files = [("lib/a_lib.py", "def helper(x):\n    return x + 1\n\n\ndef unused_thing(y):\n    return y * 2\n"),
+                  ("lib/z_user.py", "from a_lib import *\n\nprint(helper(3))\nprint(unused_thing(4))\n"),
+                  ("lib/b_user.py", "from a_lib import *\n\nprint(helper(5))\n"),
+                  ("lib/c_plain.py", "import os\nprint(os.sep)\n")]
+    for safe in (False, True):
+        trees.append({"files": star_files, "safe": safe, "max_passes": 1, "cwd": "lib",
+                      "schedules": [{"n_cores": n, "order_seed": 7, "delay_seed": d} for n in (2, 4) for d in (0, 11, 12, 13)]})
     tot = {}
     with pool.Pool(n=4) as p:
         verdict.run_witnesses(v, p)
